@@ -125,6 +125,7 @@ class C12(Scenario):
             cfg["n_derived"] = rng.randint(2, 6)
             fam["mixed_space"] = 0.25
             fam["flat_form"] = 0.3
+            fam["mesh_sequence"] = 0.2
             cfg["mirror_geo"] = rng.random() < 0.5
         elif arm == "deep":
             cfg["depth"] = rng.choice([4, 5])
@@ -257,7 +258,18 @@ class C12(Scenario):
                     q = rng.random()
                     s_ = rng.choice(fslots)
                     lo = made_at[s_] + 1
-                    if q < 0.35:
+                    msq = [(f_[0], P["meshes"][f_[2]]) for f_ in P["forms"] if f_[2] < len(P["meshes"]) and P["meshes"][f_[2]].get("msq") and f_[0] in made_at]
+                    if msq and rng.random() < 0.5:
+                        # preprocessing with coefficient splitting of a sub-form / the same form
+                        # earlier than on the reference node (new coefficients are created inside)
+                        s_, M_ = rng.choice(msq)
+                        lo = made_at[s_] + 1
+                        cs = [c for c in M_["coefs"] if c in made_at]
+                        kw = {"do_apply_function_pullbacks": True, "do_apply_integral_scaling": True, "do_apply_geometry_lowering": True, "do_replace_functions": True}
+                        if cs:
+                            kw["coefficients_to_split"] = ["t"] + [["$", c] for c in rng.sample(cs, rng.randint(1, len(cs)))]
+                        op = ["call", out, rng.choice(["sim.ops.preprocessed_form", "sim.ops.form_data"]), [["$", s_]], kw]
+                    elif q < 0.35:
                         op = ["obs", None, rng.choice(["sig", "sig", "sig", "hash", "args", "coeffs", "repr", "str", "meta"]), s_]
                     elif q < 0.45 and eslots:
                         s_ = rng.choice(eslots)
